@@ -126,5 +126,7 @@ func runC04(seed int64, tier string, out string) {
 	}
 	flush()
 	meta.Distinct += len(distinctKeys)
+	meta.Rule += " PLUS bucket members: tables with a row-number column; for generated GROUP BY keys (columns and expressions, with and without --strict-equal, --cpu 1 and 4, tables of 2-15 and 170-370 rows) LISTAGG of the row number gives the members of every bucket, compared inside Coq with Model.Query.bucket_idx, and MEDIAN, STDEV(P), VAR(P), JSON_AGG, LISTAGG, a user-defined aggregate, COUNT / SUM DISTINCT of every bucket are compared with the same aggregates computed by the implementation over exactly those rows."
+	runC04Members(rand.New(rand.NewSource(seed^0x6d62)), tier, out, meta)
 	meta.write(out)
 }
